@@ -16,16 +16,16 @@ import (
 func init() { register("C17", "exploration", checkC17) }
 
 type ratioCase struct {
-	ID      string
-	Kind    string // "run", "xx", "random"
-	Writer  string // "xz", "lzma2"
-	N       int    // run length / |X| / random length
-	Byte    byte
-	LC, LP, PB int
+	ID               string
+	Kind             string // "run", "xx", "random"
+	Writer           string // "xz", "lzma2"
+	N                int    // run length / |X| / random length
+	Byte             byte
+	LC, LP, PB       int
 	DictCap, BufSize int
-	BlockSize int64
-	Matcher int
-	Seed    uint64
+	BlockSize        int64
+	Matcher          int
+	Seed             uint64
 }
 
 func (k ratioCase) desc() map[string]any {
